@@ -4,6 +4,7 @@ def b_Circle_create_circle_node : CR.SrcW.Builder where
   kind := .node
   tag := "circle"
   xsd := "circle"
+  path := []
   parent := ""
   attrs := []
   gattrs := []
@@ -20,7 +21,8 @@ def b_Circle_create_circle_node_center : CR.SrcW.Builder where
   key := "CircleXMLNode.create_circle_node/center"
   kind := .node
   tag := "center"
-  xsd := ""
+  xsd := "circle"
+  path := ["center"]
   parent := "CircleXMLNode.create_circle_node"
   attrs := []
   gattrs := []
@@ -35,7 +37,8 @@ def b_Circle_create_circle_node_center_y : CR.SrcW.Builder where
   key := "CircleXMLNode.create_circle_node/center/y"
   kind := .node
   tag := "y"
-  xsd := ""
+  xsd := "circle"
+  path := ["center", "y"]
   parent := "CircleXMLNode.create_circle_node/center"
   attrs := []
   gattrs := []
@@ -48,7 +51,8 @@ def b_Circle_create_circle_node_center_x : CR.SrcW.Builder where
   key := "CircleXMLNode.create_circle_node/center/x"
   kind := .node
   tag := "x"
-  xsd := ""
+  xsd := "circle"
+  path := ["center", "x"]
   parent := "CircleXMLNode.create_circle_node/center"
   attrs := []
   gattrs := []
@@ -61,7 +65,8 @@ def b_Circle_create_circle_node_radius : CR.SrcW.Builder where
   key := "CircleXMLNode.create_circle_node/radius"
   kind := .node
   tag := "radius"
-  xsd := ""
+  xsd := "circle"
+  path := ["radius"]
   parent := "CircleXMLNode.create_circle_node"
   attrs := []
   gattrs := []
